@@ -35,8 +35,21 @@ def evOf (infos : List EvInfo) (seqs : List (Nat × Nat)) (off : Nat) : Option E
   let q ← seqs.find? (·.1 == off)
   pure ⟨i.st, q.2, off⟩
 
+/-- child id token `c<parentOffset>.<index>` -/
+def kidTok (infos : List EvInfo) (seqs : List (Nat × Nat)) (s : String) : Option Kid :=
+  if s.startsWith "c" then
+    match ((s.drop 1).toString).splitOn "." with
+    | [po, ix] => do
+      let p ← evOf infos seqs (← po.toNat?)
+      pure (p, ← ix.toNat?)
+    | _ => none
+  else none
+
 def parseOffs (infos : List EvInfo) (seqs : List (Nat × Nat)) (s : String) : Option (List Ev) :=
-  if s = "" then some [] else (s.splitOn ",").mapM fun t => do evOf infos seqs (← nat? t)
+  if s = "" then some [] else ((s.splitOn ",").filter (fun t => !t.startsWith "c")).mapM fun t => do evOf infos seqs (← nat? t)
+
+def parseKids (infos : List EvInfo) (seqs : List (Nat × Nat)) (s : String) : Option (List Kid) :=
+  if s = "" then some [] else ((s.splitOn ",").filter (fun t => t.startsWith "c")).mapM (kidTok infos seqs)
 
 def isDQ (s : String) : Option Bool := if s = "M" then some false else if s = "D" then some true else none
 
@@ -53,14 +66,21 @@ def tokOp (infos : List EvInfo) (seqs : List (Nat × Nat)) (tok : String) : Opti
     | "1" => pure (some (.drop (← evOf infos seqs off)))
     | "3" => pure (some (.commit (← evOf infos seqs off)))
     | _ => pure none
-  | ["add", o, b] => do pure (some (.add (← isDQ b) (← evOf infos seqs (← nat? o))))
+  | ["add", o, b] =>
+    if o.startsWith "c" then do
+      let kid ← kidTok infos seqs o
+      pure (some (.addKid kid.1 kid.2))
+    else do pure (some (.add (← isDQ b) (← evOf infos seqs (← nat? o))))
+  | ["spk", o, _p] => do
+    let kid ← kidTok infos seqs o
+    pure (some (.spawn kid.1 kid.2))
   | ["seal", k, b] => do pure (some (.sealB (← isDQ b) (← nat? k)))
   | ["bcm", k, b] => do pure (some (.bcommit (← isDQ b) (← nat? k)))
   | ["send", b, k, r, offs] => do
     let evs ← parseOffs infos seqs offs
     if r = "ok" then pure (some (.sendOk (← isDQ b) (← nat? k) evs))
     else pure (some (.sendFail (← isDQ b) (← nat? k) evs))
-  | ["giveup", b, offs] => do pure (some (.giveUp (← isDQ b) (← parseOffs infos seqs offs)))
+  | ["giveup", b, k, offs] => do pure (some (.giveUp (← isDQ b) (← nat? k) (← parseOffs infos seqs offs)))
   | _ => pure none
 
 /-- offsets ↦ seq from the `put` tokens -/
@@ -79,8 +99,13 @@ def toOps (infos : List EvInfo) (trace : List String) : Option (List (String × 
     | t :: ts => do
       let o ← tokOp infos seqs t
       let rest ← go ts
+      -- a successful send (or the error callback) also finishes the children it carried (observation ops for the oracle)
+      let acks : List (String × Op) := match t.splitOn ":" with
+        | ["send", _, _, "ok", offs] => ((parseKids infos seqs offs).getD []).map (fun kid => (t, Op.kidAck kid.1 kid.2))
+        | ["giveup", _, _, offs] => ((parseKids infos seqs offs).getD []).map (fun kid => (t, Op.kidAck kid.1 kid.2))
+        | _ => []
       match o with
-      | some op => pure ((t, op) :: rest)
+      | some op => pure ((t, op) :: acks ++ rest)
       | none => pure rest
   go trace
 
@@ -135,8 +160,10 @@ def toStreamOps (infos : List EvInfo) : List String → Option (List (String × 
       | some st => pure ((t, st, .out off) :: r)      -- seq filled in by `resolve`
       | none => pure r                                  -- child events (offset 0) are not stream events
     | ["prop", o, _p] => do
-      let off ← nat? o; let st ← stOfOff infos off; let r ← toStreamOps infos ts
-      pure ((t, st, .propagate off) :: r)
+      let off ← nat? o; let r ← toStreamOps infos ts
+      match stOfOff infos off with
+      | some st => pure ((t, st, .propagate off) :: r)
+      | none => pure r                                  -- a held child event re-injected: not a stream event
     | ["fin", o, f] => do
       let off ← nat? o; let r ← toStreamOps infos ts
       match stOfOff infos off, f with
